@@ -61,8 +61,12 @@ RECURSIVE Block(_)
 Block(entries) == IF entries = <<>> THEN <<>> ELSE Head(entries) \o <<0>> \o Block(Tail(entries))
 ExpBlock(rec) == Block((IF rec.envb = 0 THEN rec.penv ELSE <<>>) \o rec.envx) \o <<0>>
 
+\* rec.fault: 0 = none; k in 1..99 = the k-th allocation of the start fails; 100 = an argument / entry that cannot be converted
 Clauses(rec) ==
-  (IF rec.r # 1 \/ rec.created # 1 THEN {"start-failed"} ELSE {}) \cup
+  (IF rec.fault = 0 /\ (rec.r # 1 \/ rec.created # 1) THEN {"start-failed"} ELSE {}) \cup
+  (IF rec.fault # 0 /\ rec.r # 1 /\ rec.created # 0 THEN {"process-created-although-start-failed"} ELSE {}) \cup
+  (IF rec.fault # 0 /\ rec.r = 1 /\ rec.created # 1 THEN {"success-without-a-process"} ELSE {}) \cup
+  (IF rec.fault = 100 /\ rec.r = 1 THEN {"unconvertible-input-accepted"} ELSE {}) \cup
   (IF rec.r = 1 /\ Split(rec.cmd) # rec.argv THEN {"split-differs-from-argv"} ELSE {}) \cup
   (IF rec.r = 1 /\ rec.alloc # Len(rec.cmd) + 1 THEN {"command-line-buffer-not-exact"} ELSE {}) \cup
   (IF rec.r = 1 /\ rec.block # ExpBlock(rec) THEN {"environment-block-wrong"} ELSE {})
